@@ -977,7 +977,8 @@ Section Invariant.
     - (* probe *) unfold probe_step. simpl. now apply ext_add_trace.
     - (* fail *) unfold fail_step. destruct (sget "vfail" (ctx s)) as [[]|]; auto.
       apply ext_lift; [exact H|intros b]. destruct b; auto.
-      destruct (sget "err" l) as [[]|]; auto. destruct (sget "msg" l); auto.
+      destruct (sget "err" l) as [[]|]; auto. destruct (sget "msg" l) as [m|]; auto.
+      destruct (sget "cached" l) as [[]|]; auto; [destruct m; auto|].
       apply ext_lift; [exact H|intros m']. destruct m'; auto. now apply ext_raise_new.
     - (* incr *) unfold incr_step. destruct (sget "vincr" (ctx s)) as [[]|]; auto.
       destruct (sget s1 (ctx s)) as [[]|]; simpl; auto using ext_set_ctx.
